@@ -1,10 +1,18 @@
 //! vmc: bounded exhaustive exploration of rust-vmm/vhost (see /verif/DESIGN.md).
 
 mod checks;
+mod feops;
+mod feraw;
 mod lattice;
 mod model;
+mod pair;
+mod pxops;
+mod rawpeer;
+mod recorder;
 mod report;
+mod spec;
 mod sysshim;
+mod wirereq;
 
 use report::Report;
 
@@ -23,6 +31,8 @@ fn level_of(id: &str) -> &'static str {
 
 fn run_check(id: &str, rep: &mut Report) -> bool {
     match id {
+        "C03" => checks::c03::run(rep),
+        "C08" => checks::c08::run(rep),
         "C19" => checks::c19::run(rep),
         "C20" => checks::c20::run(rep),
         _ => return false,
@@ -82,6 +92,8 @@ fn main() {
             rep.outcome("replay");
             rep.outcome("replay2");
             match id.as_str() {
+                "C03" => checks::c03::replay(&v["case"], &mut rep),
+                "C08" => checks::c08::replay(&v["case"], &mut rep),
                 "C19" => checks::c19::replay(&v["case"], &mut rep),
                 "C20" => checks::c20::replay(&v["case"], &mut rep),
                 _ => {
